@@ -82,3 +82,14 @@ def classify(violation, known):
         except Exception:  # noqa: BLE001 - a broken predicate must not hide anything
             continue
     return None
+
+
+def make_classifier():
+    """record -> id of the matching known finding (or None); used inside the workers."""
+    known = load_known()
+
+    def classify_id(record):
+        f = classify(record, known)
+        return None if f is None else f["id"]
+
+    return classify_id
